@@ -105,6 +105,13 @@ func craftedInputs() []epInput {
 		many = append(many, ifdEntry{uint16(0x9000 + i), 3, 1, []byte{1, 0}})
 	}
 	add("ifd0-100-entries", tiffLE(many, 0, make([]byte, 64)))
+	// 80 string values that all lie beyond the end of a 1 KB file: once the stream has ended, the remaining pending tags
+	// must not cost a read each (C02 read budget); bare, and inside JPEG / PNG below
+	var beyond []ifdEntry
+	for i := 0; i < 80; i++ {
+		beyond = append(beyond, ifdEntry{[]uint16{0x013b, 0x8298, 0x0131, 0x010e}[i%4], 2, 40, le32(uint32(2000 + 50*i))})
+	}
+	add("ifd0-80-values-beyond-eof", tiffLE(beyond, 0, make([]byte, 32)))
 	// first IFD offset pointing at the last byte of a 32-byte file
 	short := append([]byte("II*\x00\x1f\x00\x00\x00"), make([]byte, 24)...)
 	add("ifd-at-byte-31", short)
